@@ -16,10 +16,10 @@ from z3 import And, Or, Not, If, Implies, Int, Ints, IntVal, BoolVal, ForAll, Ex
 from pyvc.front import select, SelectorError, OutOfSubset, walk_no_defs
 from pyvc.symex import Exec, State, LoopSpec
 from pyvc.theories import TypePreds, ConcreteStr
-from pyvc.th_lists import Lists, Val, VAL, fresh_list, V, as_list_sv
+from pyvc.th_lists import Lists, Val, NONEV, VAL, fresh_list, V, as_list_sv
 from pyvc.th_tables import Tables, Key, KEY, fresh_table, wf, no_columns, nrows, column, same_table, key_of
 from pyvc.sv import SV, I, B, S, T, NONE, fresh_name, fresh_int
-from pyvc.th_tables2 import (Rows, Init, Concat, Slices, Deletes, PySlice, SLEN, SIDX, slice_axiom, CNT, cnt_def, count_lemmas, fresh_rowlist, rows_of, mask_list, rowmap, fresh_colmap, as_table, CLS,
+from pyvc.th_tables2 import (Rows, Init, Concat, Concats, Slices, Deletes, PySlice, SLEN, SIDX, slice_axiom, CNT, cnt_def, count_lemmas, fresh_rowlist, rows_of, mask_list, rowmap, fresh_colmap, as_table, CLS,
                               equally_long, same_columns, records_contract, empty_with_columns_contract, mask_contract, MASK_CLAUSES)
 
 PROP = 'C01'
@@ -322,6 +322,54 @@ def delete_obligations(ctx, m):
             raise OutOfSubset('%s: expected %s' % (label, 'a returning and a raising path' if may_raise else 'a returning path'))
 
 
+# ====================================================================================================== d1 + d2 (concat of two tables)
+def concat_obligations(ctx, m):
+    """dictable.__add__ -> dictable.concat(self, other) with as_list inlined, dict_concat and the constructor by their contracts: the result has the
+    union of the columns, len(d1) + len(d2) rows; the rows of d1 come first, then those of d2, each in order; a cell of a column the operand does
+    not have is None.  concat of more than two tables is the same code with a longer sum(): bounded only."""
+    ma = ctx.mod('_as_list')
+    inline = _inline(m)
+    for q in ('__add__', 'concat'):
+        inline['dictable.' + q] = (m, m.func('dictable.' + q))
+    inline['as_list'] = (ma, ma.func('as_list'))
+    n0, n1 = Ints('N0 N1')
+    t0, t1 = fresh_table('self'), fresh_table('other')
+    rows = Rows(known=[(t0, n0), (t1, n1)])
+    n_ob = len(ctx.obligations)
+    ex = Exec(m, [Concats(rows), Slices(), Init(), rows, Dictable(m), Tables(), Lists(), TypePreds(extra={'is_arr': ()})], inline=inline, name='__add__')
+    st = State(env={'self': t0})
+    pre = [wf(t0, n0), wf(t1, n1)]
+    st.pc += pre
+    outs = ex.run_function(st, 'dictable.__add__', [t0, t1], {})
+    ctx.absorb(ex)
+    ctx.record_function(m, 'dictable.__add__', inline['dictable.__add__'][1], ex.stmts_executed)
+    ctx.record_function(m, 'dictable.concat', inline['dictable.concat'][1], ex.stmts_executed, excluded=['other than two operands: bounded only'])
+    R0, R1 = nrows(t0, n0), nrows(t1, n1)
+    c = Const('c!cat', Key)
+    j = Int('j!cat')
+    nret = 0
+    for out in outs:
+        hy = ex.facts + out.st.pc
+        if out.kind != 'return':
+            ctx.post('__add__.never_raises.%s' % out.val, hy, BoolVal(False), kind='safety')
+            continue
+        nret += 1
+        r = out.val
+        if r.kind != 'table':
+            raise OutOfSubset('d1 + d2 does not return a table')
+        ctx.post('__add__.columns_are_the_union', hy, ForAll([c], r.dom[c] == Or(t0.dom[c], t1.dom[c])))
+        ctx.post('__add__.rectangular_with_the_rows_of_both', hy, wf(r, R0 + R1))
+        ctx.post('__add__.rows_of_the_left_operand_come_first_in_order_absent_cells_None', hy,
+                 ForAll([c, j], Implies(And(r.dom[c], 0 <= j, j < R0), r.carr[c][j] == If(t0.dom[c], t0.carr[c][j], NONEV))))
+        ctx.post('__add__.rows_of_the_right_operand_follow_in_order_absent_cells_None', hy,
+                 ForAll([c, j], Implies(And(r.dom[c], R0 <= j, j < R0 + R1), r.carr[c][j] == If(t1.dom[c], t1.carr[c][j - R0], NONEV))))
+    if nret == 0:
+        raise OutOfSubset('d1 + d2 has no returning path')
+    ground_section(ctx, n_ob)
+    ka, kb = key_of('a'), key_of('b')
+    ctx.cover('__add__.pre_with_an_absent_column', pre + [n0 == 2, n1 == 1, t0.dom[ka], t0.dom[kb], t1.dom[ka], Not(t1.dom[kb])])
+
+
 # ====================================================================================================== the constructor
 def _new_table():
     return SV('table', None, dom=z3.K(Key, False), clen=z3.K(Key, IntVal(0)), carr=z3.Array(fresh_name('new_col'), Key, z3.ArraySort(z3.IntSort(), Val)),
@@ -379,6 +427,7 @@ def dict_concat_obligations(ctx, m):
     ma = ctx.mod('_as_list')
     inline = {'dict_concat': (m, fdef), 'as_list': (ma, ma.func('as_list'))}
     rl = fresh_rowlist('dicts')
+    rl.f['absent'] = z3.Array('ABSENT', z3.IntSort(), Val)         # what record j's own get() returns for a missing key (None for a Dict)
     n0 = len(ctx.obligations)
     ex = Exec(m, [Concat(), Init(dict_concat=None), Rows(), Lists(), TypePreds()], inline=inline, name='dict_concat')
     st = State()
@@ -535,6 +584,7 @@ def build(ctx):
     ctx.guarded('__getitem__.column', lambda: column_obligations(ctx, m))
     ctx.guarded('__getitem__.tuple', lambda: tuple_obligations(ctx, m))
     ctx.guarded('delete', lambda: delete_obligations(ctx, m))
+    ctx.guarded('__add__', lambda: concat_obligations(ctx, m))
     ctx.guarded('constructor', lambda: constructor_obligations(ctx, m))
     ctx.guarded('dict_concat', lambda: dict_concat_obligations(ctx, m))
     ctx.trust('rectangularity of tables produced by operations other than __setitem__ (constructor forms, masks, concat, ...) is checked by the bounded stand-in only')
